@@ -1120,7 +1120,7 @@ package main
 //@ func (c *Cluster) sendHealthChecks()
 //@   requires [C17] c != nil && c.fo != nil
 //@   requires [C17,assumed] configured: c.fo.nodeFailCountLimit > 0
-//@   modifies *
+//@   modifies inferred
 //@   loop 1
 //@     iterates [C17] decision_is_sticky: prev(rehash) ==> rehash
 //@     iterates [C17] failing_node_triggers_rehash: node != nil && !prev(rehash) && !rehash ==> node.failCount != c.fo.nodeFailCountLimit
